@@ -148,6 +148,26 @@ CLAIMED = {
         'engine': 'kani-harnesses',
         'design_ref': 'DESIGN.md 5/C22, 8.18',
     },
+    'C05': {
+        'text': 'Deductive proof (Verus) on the verbatim bodies of next_solution, next_solution_and and next_solution_or, over a ghost heap that stands for the Rc<RefCell<SolutionNode>> graph (extraction rule R15 turns every access through the RefCell into an accessor call on that heap; '
+                'borrow_mut is modelled with a lock whose exclusivity is a proof obligation): every request that returns None marks its node `done`, which requires the node to be spent (`local_done`: the clause index at the end and the last body node done; both operands of an and-node done; '
+                'the remaining alternative of an or-node done; more_solutions cleared for not / time / built-ins; or backtracking disabled by a cut); a `done` node answers every later request with None, asks no clause of the knowledge base and produces no output; '
+                'the heap invariant (done => spent, for every node) is kept by every request. Holds for every knowledge base, every goal and whatever unification returns. Partial correctness (a search need not terminate). '
+                'A bounded program-level oracle (labelled bounded, never counted) asks 26 queries to exhaustion and four times more, through next_solution() and solve().',
+        'note': 'Trusted: the heap model of Rc<RefCell<..>> (T8: one heap; Rc::clone keeps identity; field access through a RefMut touches that field only; the unsafe raw-pointer writes of set_no_backtracking set cut flags only), rewrite rules R2, R7, R10, R15 (T4), derived Clone (T1), Verus+Z3 (T5). '
+                'ASSUMED contracts (not proved here): next_solution_bip (tests and clears more_solutions first), make_solution_node (fresh node below its parent; no existing node touched), print_elapsed (one output event). '
+                'unify / get_rule / get_head / get_body / key / get_var_id / set_var_id are abstract (arbitrary results). solve()/solve_all() mapping None to "No more." is read, not proved.',
+        'technique': 'contract-based deductive verification (Verus) of extracted real code over a ghost heap model of the RefCell node graph',
+        'design_ref': 'DESIGN.md 8.23',
+    },
+    'C03': {
+        'text': 'Deductive proof (Verus) on the verbatim Not branch of next_solution (ghost node heap, rule R15; see C05): not(G) answers only with the substitution set its node was created with (so no binding of G is visible and every binding is as it was), '
+                'it answers exactly when the request to G\'s node returned None (ghost record of that call, clause #not_iff), it is spent after one request whatever the outcome (succeeds at most once; a later request returns None without asking G), '
+                'and a request to a node whose backtracking a cut has disabled does nothing. Partial correctness (G need not terminate). A bounded oracle compares `pre, not(G)` with `pre, G` for 16 goals under 5 prior bindings through the real search.',
+        'note': 'Trusted: heap model (T8), R15 (T4), Verus+Z3 (T5). ASSUMED: make_solution_node gives G\'s node the substitution set of the not-node (the bindings current when the clause body was entered); "G has no answer" is identified with "the first request to G\'s node returns None".',
+        'technique': 'contract-based deductive verification (Verus) of extracted real code over a ghost heap model of the RefCell node graph',
+        'design_ref': 'DESIGN.md 8.23',
+    },
     'C15': {
         'text': 'Deductive proof (Verus) on the verbatim bodies of make_linked_list and link_front: for every term vector satisfying the call-site precondition the result is a well-formed list '
                 '(empty-node terminated, per-node count = nodes to the end, only the last node a tail variable) whose element sequence, tail and length are exactly those of the statement '
